@@ -188,16 +188,25 @@ pub fn run_job<R: Send + 'static>(
             .spawn({
                 let ctx = ctx.clone();
                 move || {
-                obs::adopt(Some(ctx));
+                obs::adopt(Some(ctx.clone()));
+                let ctx3 = ctx.clone();
                 let res = std::panic::catch_unwind(std::panic::AssertUnwindSafe(|| {
                     let env = StreamContext::new(config);
                     let collect = build(&env, i);
-                    env.execute_blocking();
-                    collect()
+                    match std::panic::catch_unwind(std::panic::AssertUnwindSafe(|| env.execute_blocking())) {
+                        Ok(()) => Ok(collect()),
+                        Err(e) => {
+                            // the run failed: read the sinks all the same (they must be empty)
+                            if let Ok(r) = std::panic::catch_unwind(std::panic::AssertUnwindSafe(collect)) {
+                                ctx3.post_panic.lock().unwrap().push((i, Box::new(r)));
+                            }
+                            Err(e)
+                        }
+                    }
                 }));
                 let out = match res {
-                    Ok(r) => HostOutcome::Done(r),
-                    Err(e) => HostOutcome::Panicked(panic_msg(&e)),
+                    Ok(Ok(r)) => HostOutcome::Done(r),
+                    Ok(Err(e)) | Err(e) => HostOutcome::Panicked(panic_msg(&e)),
                 };
                 let _ = tx.send((i, out));
             }})
